@@ -83,6 +83,25 @@ static pthread_mutex_t g_crit_mu = PTHREAD_MUTEX_INITIALIZER;
 static uintptr_t *g_pcs = NULL;
 static int g_npcs = 0;
 static long g_race_hits = 0;
+/* coverage: distinct outlined region functions entered since vgomp_clear_fns() */
+#define MAXFNS 2048
+static void *g_fns[MAXFNS];
+static int g_nfns = 0;
+static pthread_mutex_t g_fn_mu = PTHREAD_MUTEX_INITIALIZER;
+static void note_fn(void *f) {
+    pthread_mutex_lock(&g_fn_mu);
+    int found = 0;
+    for (int i = 0; i < g_nfns; i++)
+        if (g_fns[i] == f) { found = 1; break; }
+    if (!found && g_nfns < MAXFNS) g_fns[g_nfns++] = f;
+    pthread_mutex_unlock(&g_fn_mu);
+}
+int vgomp_get_fns(void **out, int max) {
+    int n = g_nfns < max ? g_nfns : max;
+    for (int i = 0; i < n; i++) out[i] = g_fns[i];
+    return g_nfns;
+}
+void vgomp_clear_fns(void) { g_nfns = 0; }
 
 static void flag(int bit, const char *msg) {
     if (!(g_status & bit) && g_msg[0] == 0)
@@ -307,6 +326,7 @@ void GOMP_parallel(void (*fn)(void *), void *data, unsigned num_threads,
     tm.data = data;
     tm.parent = parent;
     g_regions++;
+    note_fn((void *)fn);
     if (tm.T == 1) {
         tl_team = &tm;
         tl_id = 0;
